@@ -677,6 +677,22 @@ def load_fields(stream: "SupportsRead[bytes]") -> Generator[ParsedField, None, N
         yield ParsedField(number=number, wire_type=wire_type, value=decoded, raw=raw)
 
 
+def _wire_type_fits(wire_type: int, proto_type: str, repeated: bool) -> bool:
+    """Whether a field of the given declared type may be sent with this wire type."""
+    if proto_type in WIRE_VARINT_TYPES:
+        expected = WIRE_VARINT
+    elif proto_type in WIRE_FIXED_32_TYPES:
+        expected = WIRE_FIXED_32
+    elif proto_type in WIRE_FIXED_64_TYPES:
+        expected = WIRE_FIXED_64
+    else:
+        expected = WIRE_LEN_DELIM
+    if wire_type == expected:
+        return True
+    # Repeated scalars may also arrive packed.
+    return repeated and wire_type == WIRE_LEN_DELIM and proto_type in PACKED_TYPES
+
+
 def _load_fields_sized(
     stream: "SupportsRead[bytes]", size: int
 ) -> Generator[ParsedField, None, None]:
@@ -1380,6 +1396,16 @@ class Message(ABC):
                 continue
 
             meta = proto_meta.meta_by_field_name[field_name]
+
+            if not _wire_type_fits(
+                parsed.wire_type,
+                meta.proto_type,
+                proto_meta.default_gen[field_name] is list,
+            ):
+                # The writer used this field number for something else: keep the
+                # occurrence as an unknown field rather than mis-decoding it.
+                self._unknown_fields += parsed.raw
+                continue
 
             value: Any
             if parsed.wire_type == WIRE_LEN_DELIM and meta.proto_type in PACKED_TYPES:
